@@ -316,6 +316,9 @@ func fileFlushAux(L *LState, file *lFile) int {
 			return 2
 		}
 	}
+	// like a positioning call, flush synchronises the descriptor with the
+	// cursor: drop read-ahead so that a following write lands at the cursor
+	file.AbandonReadBuffer()
 	L.Push(LTrue)
 	return 1
 }
